@@ -279,6 +279,7 @@ func init() {
 			{Name: "prefixes", Run: c11Prefixes},
 			{Name: "tokenlens", QShards: 2, TShards: 4, Run: c11TokenLens},
 			{Name: "fieldcounts", QShards: 2, TShards: 4, Run: c11FieldCounts},
+			{Name: "foreignbytes", QShards: 3, TShards: 6, Run: c11ForeignBytes},
 			{Name: "parallel", Race: true, QShards: 2, TShards: 6, Run: codecParallel("fasta", "fastq", "sam", "samh", "bed", "newick")},
 			{Name: "histories", QShards: 2, TShards: 6, Run: codecHistories("fasta", "fastq", "sam", "samh", "bed", "newick")},
 			{Name: "fuzz", Thorough: true, Run: c11Fuzz},
@@ -755,6 +756,62 @@ func c11TokenLens(c *Ctx) {
 					}
 				}
 				k.Nontrivial([]byte(f), []byte(cl.name))
+			})
+			idx++
+		}
+	}
+}
+
+// c11ForeignBytes: "a non-numeric integer field yields exactly one error". An
+// integer token of EVERY length 1..19 with ONE byte that is not a digit, at
+// EVERY position, for EVERY byte value (the neighbours of '0'..'9' in ASCII —
+// '/' and ':' ';' '<' '=' '>' '?' — among them), in each integer field of a SAM
+// line and in an integer tag, between two good lines. Number parsers that work
+// on several bytes at once have their blind spots at particular (length,
+// position, byte) combinations.
+func c11ForeignBytes(c *Ctx) {
+	good := "q\t0\tr\t1\t2\t3M\t=\t4\t5\tACG\t!!!\tXX:i:7"
+	before, after := "p\t16\tr\t10\t20\t3M\t=\t40\t50\tTTT\t###", "s\t4\t*\t0\t0\t*\t*\t0\t0\tA\t!\tNM:i:1"
+	want, _ := collect(codecByName("sam").seq(strings.NewReader(before+"\n"+good+"\n"+after+"\n")), 9)
+	cols := []int{1, 3, 4, 7, 8, 11}
+	idx := int64(0)
+	for _, col := range cols {
+		for l := 1; l <= 19; l++ {
+			c.Case(idx, func(k *K) {
+				if len(want) != 3 || want[0].Err || want[1].Err || want[2].Err {
+					k.Failf("sam-valid-file", "the three well-formed lines do not decode to three records: %s", traceString(want))
+					return
+				}
+				r := k.Rand()
+				digits := randSeq(r, []byte("123456789"), l)
+				for pos := 0; pos < l; pos++ {
+					for b := 0; b < 256; b++ {
+						if b >= '0' && b <= '9' || b == '\t' || b == '\n' || b == '\r' || pos == 0 && l > 1 && (b == '+' || b == '-') {
+							continue
+						}
+						tok := append([]byte{}, digits...)
+						tok[pos] = byte(b)
+						f := strings.Split(good, "\t")
+						if col == 11 {
+							f[col] = "XX:i:" + string(tok)
+						} else {
+							f[col] = string(tok)
+						}
+						text := before + "\n" + strings.Join(f, "\t") + "\n" + after + "\n"
+						got, over := collect(codecByName("sam").seq(strings.NewReader(text)), 9)
+						k.Count("sam_line_corruptions", 1)
+						k.Count("inputs_sam", 1)
+						k.Count("error_items", 1)
+						k.Evals(1)
+						if over || len(got) != 3 || got[0] != want[0] || !got[1].Err || got[2] != want[2] {
+							k.Input("text", describeText([]byte(text)))
+							k.Input("token", tok)
+							k.Failf("sam-line-isolation", "field %d = %q (%d digits with the byte %q at position %d) is not an integer: the line must give exactly one error and leave its neighbours intact:\n got  %s", col+1, tok, l, byte(b), pos, traceString(got))
+							return
+						}
+					}
+				}
+				k.Nontrivial([]byte(fmt.Sprint("foreign", col, l)))
 			})
 			idx++
 		}
